@@ -1442,10 +1442,15 @@ func (a *A) isMoveBackForAcceptedRow(fn *ssa.Function, st *ssa.Store, W *types.N
 	wmF := a.FieldOf(W, "watermark")
 	isBefore := func(v ssa.Value) bool {
 		cc, ok := v.(*ssa.Call)
-		if !ok || calleeFull(&cc.Call) != "(time.Time).Before" || resolveBound(cc.Call.Args[0]) != ts {
+		if !ok {
 			return false
 		}
-		t := TermOf(cc.Call.Args[1], nil)
+		// ts.Before(currentSlot.Start), or currentSlot.Start.After(ts)
+		early, late, isCmp := timeOrder(cc)
+		if !isCmp || resolveBound(early) != ts {
+			return false
+		}
+		t := TermOf(late, nil)
 		return strings.Contains(t.String(), "currentSlot") && strings.Contains(t.String(), "Start") && curF != nil
 	}
 	isLate := func(v ssa.Value) bool {
